@@ -1601,6 +1601,20 @@ func (fr *Frame) exec(in ssa.Instruction, st *State) {
 		tid := p.eng.typeID(x.X.Type())
 		p.assume(True(), Eq(dynType(r), tid))
 		fr.regs[x] = IfaceV{Ref: r, Dyn: v, DynT: x.X.Type()}
+		// what a later type assertion (or x.(T) in a contract) reads back from this interface value
+		// when the static knowledge of its content is lost, e.g. after it went through a slice
+		if bt, ok := x.X.Type().Underlying().(*types.Basic); ok && bt.Kind() != types.UnsafePointer {
+			if sc, ok := v.(Scalar); ok {
+				func() {
+					defer func() { recover() }()
+					ls := leavesOf(x.X.Type())
+					if len(ls) == 1 && ls[0].Sort == sc.T.Sort {
+						fn := B.DeclareFun("payload."+typeKey(x.X.Type())+ls[0].Path, []string{SRef}, ls[0].Sort)
+						p.assume(True(), Eq(B.App(fn, ls[0].Sort, r), sc.T))
+					}
+				}()
+			}
+		}
 	case *ssa.ChangeInterface:
 		fr.regs[x] = fr.val(x.X)
 	case *ssa.TypeAssert:
